@@ -5,23 +5,83 @@ Tie: harness/rt-native engine `script` with TWO harness tasks in the cabi1/cabi2
 between them with `t<n>`), exact trace equality with m_async; the Lean spec side (WaitableSpec per waitable
 handle, clone/drop balance per task, registrations left, host traps) is evaluated on the REAL traces of
 cabi1, cabi2 and export (real executor: SharedTaskState::waitable_register/unregister,
-deliver_waitable_event).  Operation kind driven today: subtasks (stream/future ops arrive with C19/C20)."""
+deliver_waitable_event); in the cabi modes the driver also replays the PROVED step function `GSys.step subtaskOps`
+along the real trace, label by label (Async/Refine.lean).  A trace is judged up to the point where a Rust panic
+starts; a script that kills the process is re-run alone in streaming mode so that its prefix is not lost.
+A failure is filed under the known v1 cross-task finding only if its clause, the handle it is about and its position
+in the trace match that defect (`attribute`).  Operation kind driven today: subtasks."""
 import os, collections, re
 from vlib import run_lines, VERIF, sh
 import rtlib
 
-C18_PREFIXES = ("waitable:", "anomaly:!registrations-left", "anomaly:!task-clones-left", "anomaly:!trap:",
+C18_PREFIXES = ("waitable:", "gsys:", "anomaly:!registrations-left", "anomaly:!task-clones-left", "anomaly:!trap:",
                 "anomaly:!host-leftovers", "host:trap:", "panic")
 
+# clauses of the WaitableSpec monitor that the v1 cross-task defect produces for the waitable that moved
+V1_CLAUSES = ("registered-in-two-tasks", "cancel-while-registered", "drop-while-registered", "dangling-registration")
+REG = re.compile(r"^(un)?reg\((\d+),(\d+)\)=")
+DLV = re.compile(r"^dlv\((\d+),(\d+)\)$")
 
-def cross_task_v1(script, trace):
-    """v1 ABI and some waitable was (un)registered under two different tasks"""
+
+def tasks_upto(toks, w, i):
+    """tasks under which waitable `w` was registered or unregistered in toks[0..i]"""
+    seen = set()
+    for t in toks[:i + 1]:
+        m = REG.match(t)
+        if m and m.group(3) == w:
+            seen.add(m.group(2))
+    return seen
+
+
+def leftover_regs(toks):
+    """the executors' maps at the end of the trace, replayed from the reg/unreg/dlv tokens (lowest task delivers)"""
+    regs = set()
+    for t in toks:
+        m = REG.match(t)
+        if m:
+            (regs.discard if m.group(1) else regs.add)((m.group(2), m.group(3)))
+            continue
+        m = DLV.match(t)
+        if m:
+            holders = sorted(int(a) for a, w in regs if w == m.group(1))
+            if holders:
+                regs.discard((str(holders[0]), m.group(1)))
+    return regs
+
+
+def attribute(script, toks, item):
+    """Is this failed item an instance of the known v1 cross-task defect?  Matches on the CLAUSE, on the
+    HANDLE the clause is about and on the POSITION in the trace: the waitable must have been (un)registered
+    under two different tasks by then, with the v1 ABI.  Returns "known" / "domain" (outside the theorems'
+    label domain, not judged) / None (a new failure)."""
     if not script.startswith("cabi1"):
-        return False
-    seen = collections.defaultdict(set)
-    for m in re.finditer(r"(?:un)?reg\((\d+),(\d+)\)", trace):
-        seen[m.group(2)].add(m.group(1))
-    return any(len(v) > 1 for v in seen.values())
+        return None
+    cls, _, where = item.partition("@")
+    where, _, pos = where.partition("#")
+    pos = int(pos) if pos.isdigit() else len(toks)
+    if cls.startswith("waitable:") and where.startswith("h"):
+        if cls[len("waitable:"):] in V1_CLAUSES and len(tasks_upto(toks, where[1:], pos)) >= 2:
+            return "known"
+        return None
+    if cls.startswith("anomaly:!registrations-left:"):
+        left = leftover_regs(toks)
+        n = cls.rsplit(":", 1)[1]
+        if n.isdigit() and int(n) == len(left) and left and all(len(tasks_upto(toks, w, len(toks))) >= 2 for _, w in left):
+            return "known"
+        return None
+    if cls == "panic":
+        m = DLV.match(toks[-1]) if toks else None          # the panic started inside the callback of this delivery
+        if m and len(tasks_upto(toks, m.group(1), len(toks))) >= 2:
+            return "known"
+        return None
+    if cls.startswith("gsys:"):
+        # `GSys` labels are legal for the v1 ABI only while the operation stays in one task (GLegal)
+        k = where
+        h = next((t.split(":")[1] for t in toks if t.startswith(f"call{k}=")), "0")
+        if h != "0" and len(tasks_upto(toks, h, pos)) >= 2:
+            return "domain"
+        return None
+    return None
 
 
 def run(c):
@@ -53,67 +113,67 @@ def run(c):
         reqs.append(rtlib.gen_subtask_script(c.rng, mode, 3, maxbody, stats, tasks=True))
     if not impl or not model:
         return
-    # corpus separately: it contains a script that aborts the process (bisecting a short list is cheap)
-    iout = run_lines([impl, "script"], reqs[:ncorpus], timeout=300) + run_lines([impl, "script"], reqs[ncorpus:], timeout=900)
-    itrace = [o.split("\t")[0] for o in iout]
-    mout = run_lines([model], [r + "\t" + o for r, o in zip(reqs, itrace)], timeout=900)
-    # A panic inside the `extern "C"` completion callback (`cabi_wake`: `waker.take().unwrap()`) cannot unwind:
-    # the process aborts, so the harness answers `crash`.  Where the MODEL predicts a panic at that point the
-    # two agree; the model's trace then stands in for the (lost) implementation trace below.
-    aborted = 0
-    for i, (o, m) in enumerate(zip(itrace, mout)):
-        mt = m.split("\t")[0]
-        if o in ("crash", "timeout") and " panic " in " " + mt + " ":
-            itrace[i] = mt
-            mout[i] = mt + "\tspec=fail:panic@-"
-            aborted += 1
-    c.cov["aborts_matching_model_panic"] = aborted
-    cab = [(r, o, m.split("\t")[0]) for r, o, m in zip(reqs, itrace, mout) if not r.startswith("export")]
+    # (a script that aborts the process is re-run alone in streaming mode: its trace prefix is not lost)
+    runs = rtlib.run_scripts(impl, reqs[:ncorpus], timeout=300) + rtlib.run_scripts(impl, reqs[ncorpus:])
+    itrace = [x.cmp() for x in runs]
+    # the spec side judges the trace up to the point where a panic started (what follows is unwinding)
+    mout = run_lines([model], [r + "\t" + x.judged() for r, x in zip(reqs, runs)], timeout=900)
+    c.cov["process_aborts_recovered_by_streaming"] = sum(1 for x in runs if x.aborted)
+    cab = [(r, o, rtlib.model_cmp(m.split("\t")[0])) for r, o, m in zip(reqs, itrace, mout) if not r.startswith("export")]
     def nontriv(r, o): return " reg(" in o or " join(" in o
     c.compare("waitable-cabi-two-tasks", [x[0] for x in cab], [x[1] for x in cab], [x[2] for x in cab], nontrivial=nontriv)
     shapes, events, skipped = set(), collections.Counter(), collections.Counter()
-    moves = collections.Counter()
-    for idx, (r, o, m) in enumerate(zip(reqs, itrace, mout)):
+    moves, known_items = collections.Counter(), collections.Counter()
+    for r, x, m in zip(reqs, runs, mout):
+        o = x.prefix
+        toks = o.split(" ")
         if r.startswith("export"):
             c.evaluations += 1
             c.corr.setdefault("waitable-export-spec-only", {"cases": 0, "mismatches": 0})["cases"] += 1
         shapes.add(o)
-        for t in o.split(" "):
+        for t in toks:
             name = t.split("(")[0].split("=")[0].rstrip("0123456789")
             if name in ("reg", "unreg", "clone", "tdrop", "dlv", "join", "ev", "cancel", "sdrop", "task", "ws.poll", "X", "edrop", "drop"):
                 events[name] += 1
         if "tdrop(1) reg(2," in o or "tdrop(2) reg(1," in o: moves["v2 move while registered"] += 1
-        if cross_task_v1(r, o): moves["v1 operation seen by two tasks"] += 1
+        if r.startswith("cabi1") and any(len(tasks_upto(toks, w, len(toks))) >= 2
+                                         for w in {mm.group(3) for mm in map(REG.match, toks) if mm}):
+            moves["v1 operation seen by two tasks"] += 1
         verdict = m.split("\t")[1] if "\t" in m else "spec=missing"
         if verdict == "spec=ok":
             continue
-        pmsg = (iout[idx].split("\t") + [""])[1]
-        if r.startswith("export") and "cannot sleep waiting only on Rust-originating events" in pmsg:
-            skipped["export: task sleeps with no waitable registered (documented panic)"] += 1
-            continue
         fails = verdict.split(":", 1)[1].split(",") if verdict.startswith("spec=fail:") else ["missing@-"]
+        doc = rtlib.documented_panic(x) if r.startswith("export") else None
+        if doc:
+            skipped[doc] += 1                 # the documented panic itself is not judged; the prefix before it is
+            fails = [f for f in fails if not f.startswith("panic@")]
         mine = [f for f in fails if f.startswith(C18_PREFIXES) or f.startswith("missing")]
-        if not mine:
-            continue                       # other properties' classes (C21) are reported by their own checks
-        if cross_task_v1(r, o):
-            c.spec_violation("waitable-v1-cross-task",
-                             "v1 task ABI: an operation polled under one task and polled/dropped under another keeps a stale "
-                             "registration (callback pointer) in the first task's map",
-                             {"request": r, "impl": o, "verdict": verdict})
-            continue
-        for f in sorted({x.split("@")[0] for x in mine}):
-            k = "waitable-" + re.sub(r"[^a-z!-]+", "-", f.split(":", 1)[1] if ":" in f else f).strip("-")[:60]
-            c.spec_violation(k, "the real trace violates the C18 spec side (" + f + ")",
-                             {"request": r, "impl": o, "model": m.split("\t")[0], "verdict": verdict, "panic": pmsg})
-    for r, o in list(zip(reqs, itrace))[ncorpus:ncorpus + 3]:
-        c.sample({"script": r, "impl_trace": o})
+        for f in mine:                        # other properties' classes (C21) are reported by their own checks
+            a = attribute(r, toks, f)
+            if a == "known":
+                known_items[f.split("@")[0].split(":")[-1] if f.startswith("anomaly") else f.split("@")[0]] += 1
+                c.spec_violation("waitable-v1-cross-task",
+                                 "v1 task ABI: an operation polled under one task and polled/dropped under another keeps a stale "
+                                 "registration (callback pointer) in the first task's map",
+                                 {"request": r, "impl": x.raw, "judged_prefix": x.judged(), "item": f, "verdict": verdict})
+            elif a == "domain":
+                skipped["gsys replay: v1 operation in two tasks (labels outside GLegal, not judged)"] += 1
+            else:
+                cls = f.split("@")[0]
+                k = "waitable-" + re.sub(r"[^a-z!-]+", "-", cls.split(":", 1)[1] if ":" in cls else cls).strip("-")[:60]
+                c.spec_violation(k, "the real trace violates the C18 spec side (" + f + ")",
+                                 {"request": r, "impl": x.raw, "judged_prefix": x.judged(), "model": m.split("\t")[0],
+                                  "verdict": verdict, "panic": x.msg})
+    c.cov["known_class_instances_by_clause"] = dict(known_items)
+    for r, x in list(zip(reqs, runs))[ncorpus:ncorpus + 3]:
+        c.sample({"script": r, "impl_trace": x.raw.split("\t")[0]})
     c.cov["input_distribution"] = dict(sorted(stats.items()))
     c.cov["trace_events"] = dict(sorted(events.items()))
     c.cov["cross_task"] = dict(moves)
     c.cov["distinct_traces"] = len(shapes)
-    c.cov["scripts_not_applicable"] = dict(skipped)
+    c.cov["not_judged"] = dict(skipped)
     c.cov["scripts"] = {"corpus": ncorpus, "seeded": n, "max_body": maxbody}
-    c.cov["search"] = ("WaitableSpec.run/complete per waitable handle + clone/drop balance per task + registrations left + host traps, "
+    c.cov["search"] = ("Refine.replayOp (GSys.step subtaskOps driven along the real trace, cabi modes) + WaitableSpec.run/complete per waitable handle + clone/drop balance per task + registrations left + host traps, "
                        "evaluated by the Lean driver on the implementation's traces of every script of this run (all three modes)")
     c.assumptions += [
         "operation kind driven on the real code: subtasks only (the theorems are generic in the operation kind; stream/future ops join the harness with C19/C20)",
